@@ -21,6 +21,13 @@
 (* Every event also carries the projection of the retained SOURCE of the   *)
 (* last copy() / reverse_copy() / pickle round trip (slive, sdb, srdb):    *)
 (* it must stay exactly what the collection was when it was copied.        *)
+(* Branching: a derivation event with keep = TRUE observes the DERIVED      *)
+(* object in db / rdb while the object it was taken from stays the current  *)
+(* one (cdb / crdb: it must be unchanged); a later "read" / "qread" on the  *)
+(* current object re-reads it and later derivations are derivations of the  *)
+(* new content.  "qs" carries the query answers of the retained source.     *)
+(* The harness calls methods through their deprecated camelCase aliases as  *)
+(* well: an alias is the same action, the events do not distinguish them.   *)
 (* Failing calls: "read_fail" (input raises after k lines / tag_filter      *)
 (* raises while line k+1 is filtered; e.want = the injected exception),    *)
 (* "qread_fail" (truncated pickle of the collection e.lines) and "probe"    *)
@@ -54,13 +61,14 @@ RestrictPOps == {"choose", "choose_copy", "filter_p", "filter_p_copy", "filter_p
 \* inputs the statement does not cover (DESIGN D3 / 5 C20): any outcome is accepted
 Unspecified(e, pre) ==
    \/ e.op = "insert" /\ e.a \in DOMAIN pre.db                          \* not a fresh package
-   \/ e.op = "read" /\ \E i, j \in 1..Len(e.lines) : i # j /\ ToSet(e.lines[i].pkgs) \cap ToSet(e.lines[j].pkgs) # {}
+   \/ e.op \in {"read", "qread"} /\ \E i, j \in 1..Len(e.lines) : i # j /\ ToSet(e.lines[i].pkgs) \cap ToSet(e.lines[j].pkgs) # {}
    \/ e.op = "choose_copy" /\ ~(ToSet(e.s) \subseteq DOMAIN pre.db)     \* KeyError today
    \/ e.op = "facet" /\ ~IFacetDomain(pre)                              \* tags not of the form facet::name
 
 \* the implementation-layer operator for the call (deviation OFF)
 Nominal(e, pre) ==
    CASE e.op = "read"           -> IRead(JLines(e.lines), ToSet(e.drop))
+     [] e.op = "qread"          -> IRead(JLines(e.lines), {})            \* qread(pickle of that collection)
      [] e.op = "insert"         -> IInsert(pre, e.a, ToSet(e.s), FALSE)
      [] e.op = "reverse"        -> IReverse(pre)
      [] e.op = "reverse_copy"   -> IReverseCopy(pre)
@@ -79,6 +87,7 @@ Nominal(e, pre) ==
 \* the reference operator for the call
 RefNext(e, a) ==
    CASE e.op = "read"                        -> ARead(JLines(e.lines), ToSet(e.drop))
+     [] e.op = "qread"                       -> ARead(JLines(e.lines), {})
      [] e.op = "insert"                      -> AInsert(a, e.a, ToSet(e.s))
      [] e.op \in {"reverse", "reverse_copy"} -> AReverse(a)
      [] e.op \in {"copy", "pickle"}          -> a
@@ -112,6 +121,7 @@ QueriesOK(e, pre) ==
    /\ NoDupKeys(e.ittp) /\ ObsFn(e.ittp) = pre.rdb
 
 CopyOps == {"copy", "reverse_copy", "pickle"}
+KeepOps == CopyOps \cup RestrictPOps \cup {"reverse", "filter_t", "filter_t_copy", "facet"}
 
 \* a failing call: the exception propagates, the object stays consistent
 FailureOK(e, pre, obs) ==
@@ -131,7 +141,7 @@ DevQStep(e, pre, obs) == e.op = "qread_fail" /\ obs \notin {pre, IRead(JLines(e.
 TInit == /\ tid \in 1..Len(Traces)
          /\ l = 1
          /\ P = {} /\ T = {} /\ R = {} /\ db = NoDict /\ rdb = NoDict
-         /\ sabs = AEmpty /\ src = NoSrc /\ al = NoAlias(IEmpty)
+         /\ sabs = AEmpty /\ src = NoSrc /\ al = NoAlias(IEmpty) /\ rv = NoView /\ ab = NoBound
 
 TStep == /\ l <= Len(Tr.events)
          /\ LET e   == Tr.events[l]
@@ -142,22 +152,25 @@ TStep == /\ l <= Len(Tr.events)
                   ELSE IF e.op \in FailOps THEN FailureOK(e, pre, obs)
                   ELSE /\ e.exc = ""                                     \* no call of the domain raises
                        /\ IF e.op = "q" THEN obs = pre /\ QueriesOK(e, pre)
+                          ELSE IF e.op = "qs" THEN obs = pre /\ src.live /\ QueriesOK(e, [db |-> src.db, rdb |-> src.rdb])
                           ELSE LET nom    == Nominal(e, pre)
                                    viaDev == DevAllowed /\ obs # nom /\ DevExplains(e, pre, obs)
                                IN /\ (obs = nom \/ viaDev)
                                   \* directly against the reference relation
                                   /\ (InverseOf(pre) /\ obs = nom) =>
                                         (InverseOf(obs) /\ AbsOf(obs) = RefNext(e, AbsOf(pre)))
-               /\ SetImpl(obs) /\ SetAbs(AbsOf(obs))
+               \* keep: the derived object was observed; the object it was taken from stays current, unchanged
+               /\ e.keep => (e.op \in KeepOps /\ [db |-> ObsFn(e.cdb), rdb |-> ObsFn(e.crdb)] = pre)
+               /\ LET cur2 == IF e.keep THEN pre ELSE obs IN SetImpl(cur2) /\ SetAbs(AbsOf(cur2))
                \* the source of a copy is independent of the copy: nothing done later changes it
-               /\ src' = IF e.op \in CopyOps /\ e.exc = ""
+               /\ src' = IF e.op \in CopyOps /\ e.exc = "" /\ ~e.keep
                          THEN [live |-> TRUE, age |-> 0, db |-> pre.db, rdb |-> pre.rdb] ELSE src
                /\ e.slive = src'.live
                /\ src'.live => /\ NoDupKeys(e.sdb) /\ NoDupKeys(e.srdb)
                                /\ ObsFn(e.sdb) = src'.db /\ ObsFn(e.srdb) = src'.rdb
-               /\ sabs' = AbsOf(src') /\ al' = al
+               /\ sabs' = AbsOf(src') /\ al' = al /\ rv' = rv /\ ab' = ab
                \* deviation marker, printed only for a step that is explained completely
-               /\ ((~Unspecified(e, pre) /\ e.op \notin (FailOps \cup {"q"}) /\ DevAllowed /\ obs # Nominal(e, pre))
+               /\ ((~Unspecified(e, pre) /\ e.op \notin (FailOps \cup {"q", "qs"}) /\ DevAllowed /\ obs # Nominal(e, pre))
                       => PrintT(<<"AT", tid, l, 1>>))
                /\ (DevQStep(e, pre, obs) => PrintT(<<"AT", tid, l, 2>>))
          /\ l' = l + 1 /\ UNCHANGED tid
